@@ -699,7 +699,7 @@ class ExprMixin:
                 r = h(self, e, kind, it, s)
                 if r is not None:
                     return r
-            generic = isinstance(it, VOpaque) or (isinstance(it, VTuple) and it.items and isinstance(it.items[0], str)
+            generic = isinstance(it, (VOpaque, VSeq)) or (isinstance(it, VTuple) and it.items and isinstance(it.items[0], str)
                                                   and it.items[0] in ('zip', 'enumerate', 'range'))
             if generic and self.opaque_comprehensions:
                 # element-wise computation over an unknown collection: evaluate the body once on a
